@@ -115,3 +115,12 @@ pub fn from_utf8_overapprox(v: &[u8]) -> Result<&str, core::str::Utf8Error> {
 pub fn from_utf8_ok(v: &[u8]) -> Result<&str, core::str::Utf8Error> {
     Ok(unsafe { core::str::from_utf8_unchecked(v) })
 }
+
+/// Kani 0.68 ICEs on `encode::Error::<Infallible>::write` (set_discriminant on a variant with an
+/// uninhabited payload).  For sinks whose error type is `Infallible` the function can never be
+/// called: the stub asserts that and diverges.
+pub fn encode_error_write_unreachable<E>(_e: E) -> minicbor::encode::Error<E> {
+    assert!(false, "encode::Error::write reached for an infallible sink");
+    kani::assume(false);
+    loop {}
+}
